@@ -171,4 +171,77 @@ theorem unique_of_pairwise (l : List (String × M)) (hn : (idsOf l).Pairwise (·
     · subst e2; exact absurd rfl (hn.1 id (hmem _ m1))
     · exact ih hn.2 m1 m2
 
+theorem hasDupKey_false (l : List (String × M)) : hasDupKey l = false ↔ (idsOf l).Pairwise (· ≠ ·) := by
+  induction l with
+  | nil => simp [hasDupKey, idsOf]
+  | cons kv rest ih =>
+    simp only [hasDupKey, Bool.or_eq_false_iff, ih, idsOf, List.map_cons, List.pairwise_cons, List.mem_map,
+      forall_exists_index, and_imp]
+    constructor
+    · rintro ⟨h1, h2⟩
+      refine ⟨fun a x hx hxa he => ?_, h2⟩
+      have : (rest.any fun x => x.1 == kv.1) = true := by
+        simp only [List.any_eq_true, beq_iff_eq]
+        exact ⟨x, hx, by rw [hxa, he]⟩
+      rw [h1] at this; cases this
+    · rintro ⟨h1, h2⟩
+      refine ⟨?_, h2⟩
+      cases hq : (rest.any fun x => x.1 == kv.1) with
+      | false => rfl
+      | true =>
+        simp only [List.any_eq_true, beq_iff_eq] at hq
+        obtain ⟨x, hx, he⟩ := hq
+        exact absurd he.symm (h1 x.1 x hx rfl)
+
+/-- a fresh collection over records with distinct ids holds exactly those records -/
+theorem lookup_init_distinct (cfg : Cfg M K R) (recs : List (String × M)) (rng : R)
+    (hnd : (idsOf recs).Pairwise (· ≠ ·)) :
+    (∀ k v, (k, v) ∈ recs → lookup (Coll.init cfg recs rng).items k = some { body := v, time := 0 }) ∧
+    (∀ k, k ∉ idsOf recs → lookup (Coll.init cfg recs rng).items k = none) := by
+  constructor
+  · intro id v hm
+    rw [lookup_init]
+    cases hf : recs.reverse.find? (fun kv => kv.1 == id) with
+    | none =>
+      have := List.find?_eq_none.mp hf (id, v) (List.mem_reverse.mpr hm)
+      simp at this
+    | some kv =>
+      have hk : kv.1 = id := by have := List.find?_some hf; simpa using this
+      have hm' : kv ∈ recs := List.mem_reverse.mp (List.mem_of_find?_eq_some hf)
+      obtain ⟨k, w⟩ := kv
+      simp only at hk; subst hk
+      have := unique_of_pairwise _ hnd k w v hm' hm
+      subst this; rfl
+  · intro id hn
+    rw [lookup_init]
+    cases hf : recs.reverse.find? (fun kv => kv.1 == id) with
+    | none => rfl
+    | some kv =>
+      exfalso; apply hn
+      have hk : kv.1 = id := by have := List.find?_some hf; simpa using this
+      exact List.mem_map.mpr ⟨kv, List.mem_reverse.mp (List.mem_of_find?_eq_some hf), hk⟩
+
+/-- what `Coll.newO` amounts to once the option list has resolved -/
+theorem newO_cases (base : Cfg M K R) (opts : List (ResOpt M K)) (rng : R)
+    (cfg : Cfg M K R) (s : CState M R) (h : Coll.newO base opts rng = some (cfg, s)) :
+    ∃ rc, computeConfig opts = some rc ∧ cfg = toCfg base rc ∧
+      hasDupKey (keyedRecords cfg (recordsOf opts)) = false ∧
+      s = Coll.init cfg (keyedRecords cfg (recordsOf opts)) rng := by
+  unfold Coll.newO at h
+  cases hc : computeConfig opts with
+  | none => simp [hc] at h
+  | some rc =>
+    have hrec : rc.initialRecords = recordsOf opts := by
+      have := applyAllRes_records opts {} rc hc
+      simpa using this
+    simp only [hc, Option.bind_some] at h
+    split at h
+    · cases h
+    · rename_i hd
+      simp only [Option.some.injEq, Prod.mk.injEq] at h
+      obtain ⟨hcfg, hs⟩ := h
+      subst hcfg
+      rw [hrec] at hd hs
+      exact ⟨rc, rfl, rfl, by simpa using hd, hs.symm⟩
+
 end ScVerif.C01
